@@ -200,6 +200,13 @@ def _jitem(sx, args, kwargs, st, node):
     return [R(st, Val(V.Json, B.J()["item"](args[0].term, args[1].term)))]
 
 
+@REG.model("jget")
+def _jget(sx, args, kwargs, st, node):
+    k = args[1]
+    k = sx.lift(k) if isinstance(k, Conc) else k
+    return [R(st, Val(V.Json, B.J()["get"](args[0].term, k.term)))]
+
+
 @REG.model("jlen")
 def _jlen(sx, args, kwargs, st, node):
     return [R(st, Val(V.Int, B.J()["len"](args[0].term)))]
